@@ -133,6 +133,25 @@ fn gen_rule_arg(r: &mut Rng) -> String {
     }
 }
 
+fn store_names(res: &[Res]) -> Vec<String> {
+    let mut v = vec![];
+    for x in res {
+        v.push(x.name.clone());
+        if x.mime == Some("application/javascript") || x.mime.is_none() {
+            for _ in 0..3 {
+                v.push(x.name.clone());
+                v.push(x.name.trim_end_matches(".js").to_string());
+            }
+        }
+        for a in &x.aliases {
+            v.push(a.clone());
+        }
+    }
+    v.push("nosuch".into());
+    v.push("S0".into());
+    v
+}
+
 fn gen_arg_list(r: &mut Rng, names: &[&str]) -> String {
     let mut parts = vec![r.pick(names).to_string()];
     let n = if r.chance(1, 10) { r.range(4, 11) } else { r.range(0, 3) };
@@ -261,16 +280,17 @@ fn marker(name: &str) -> String {
 
 const NAMES: &[&str] = &["s0.js", "s1.js", "s2.js", "s3.js", "d0.fn", "d1.fn", "d2.fn", "t0.js", "img.gif", "noext"];
 const ALIASES: &[&str] = &["s0", "s1", "al0", "al1", "al2", "s2.js", "d0.fn", "al3.js"];
-const PERMS: &[u8] = &[0, 0, 0, 0, 1, 2, 3, 1, 2, 0x80, 0xff, 5];
+const PERMS: &[u8] = &[0, 0, 0, 0, 0, 0, 0, 1, 2, 3, 1, 2, 0x80, 0xff, 5, 0];
 
 fn gen_resources(r: &mut Rng) -> Vec<Res> {
+    let friendly = r.chance(1, 2);
     let n = r.range(1, 7);
     let mut v: Vec<Res> = vec![];
     for i in 0..n {
-        let name = if r.chance(1, 12) { r.pick(NAMES).to_string() } else { NAMES[i % NAMES.len()].to_string() };
+        let name = if !friendly && r.chance(1, 12) { r.pick(NAMES).to_string() } else { NAMES[i % NAMES.len()].to_string() };
         let mut aliases = vec![];
         for _ in 0..(if r.chance(1, 2) { 0 } else { r.range(1, 2) }) {
-            aliases.push(r.pick(ALIASES).to_string());
+            aliases.push(if friendly { format!("al{}", i) } else { r.pick(ALIASES).to_string() });
         }
         let (mime, style): (Option<&'static str>, usize) = if name.ends_with(".fn") {
             (Some("fn/javascript"), 0)
@@ -300,21 +320,23 @@ fn gen_resources(r: &mut Rng) -> Vec<Res> {
             2 => format!("{} function(){{}} /* no name */ {{{{1}}}}", mk),
             _ => format!("GIF89a{}", mk),
         };
-        let (content, dec) = match r.below(25) {
+        let (content, dec) = match if friendly { 9 } else { r.below(40) } {
             0 => ("!!!not-base64".to_string(), Dec::BadB64),
             1 => (b64(&[0xff, 0xfe, b'A', b'B']), Dec::NotUtf8),
             _ => (b64(text.as_bytes()), Dec::Text(text)),
         };
         let mut deps = vec![];
-        let nd = if r.chance(1, 3) { 0 } else { r.range(1, 3) };
+        let nd = if r.chance(1, 2) { 0 } else { r.range(1, 3) };
         for _ in 0..nd {
-            deps.push(match r.below(10) {
+            deps.push(match if friendly { 4 + r.below(10) } else { r.below(20) } {
                 0 => "missing.fn".to_string(),
                 1 | 2 => r.pick(ALIASES).to_string(),
-                _ => r.pick(&NAMES[..7]).to_string(),
+                3 => r.pick(&NAMES[..7]).to_string(),
+                _ => NAMES[r.below(n.min(7))].to_string(),
             });
         }
-        v.push(Res { name, aliases, mime, content, dec, deps, perm: r.pick(PERMS) });
+        let perm = if friendly { r.pick(&[0u8, 0, 0, 0, 1, 2, 3]) } else { r.pick(PERMS) };
+        v.push(Res { name, aliases, mime, content, dec, deps, perm });
     }
     v
 }
@@ -332,7 +354,7 @@ impl Ref {
         self.res.iter().find(|x| x.name == ident).or_else(|| self.res.iter().find(|x| x.aliases.iter().any(|a| a == ident)))
     }
     /// Canonical names reachable through dependencies (the resource itself included).
-    fn closure(&self, start: &Res) -> Vec<&Res> {
+    fn closure<'a>(&'a self, start: &'a Res) -> Vec<&'a Res> {
         let mut seen: Vec<&Res> = vec![start];
         let mut i = 0;
         while i < seen.len() {
@@ -636,14 +658,16 @@ fn engine_oracle(run: &EngineRun) -> Vec<Verdict> {
 fn gen_engine_case(r: &mut Rng) -> EngineCase {
     let resources = gen_resources(r);
     let nl = r.range(1, 3);
-    let masks: Vec<u8> = (0..nl).map(|_| r.pick(&[0u8, 1, 2, 3, 0, 1, 2, 0xff, 4])).collect();
+    let masks: Vec<u8> = (0..nl).map(|_| r.pick(&[0u8, 1, 2, 3, 0, 1, 2, 0xff, 4, 3, 0xff])).collect();
     let mut rules: Vec<Rule> = vec![];
     let nr = r.range(1, 5);
     let mut texts: Vec<String> = vec![];
     for _ in 0..nr {
-        let text = if !texts.is_empty() && r.chance(2, 5) { r.pick(&texts.iter().map(|s| s.as_str()).collect::<Vec<_>>()).to_string() } else { gen_arg_list(r, SCRIPTLET_NAMES) };
+        let sn = store_names(&resources);
+        let sn: Vec<&str> = sn.iter().map(|s| s.as_str()).collect();
+        let text = if !texts.is_empty() && r.chance(2, 5) { r.pick(&texts.iter().map(|s| s.as_str()).collect::<Vec<_>>()).to_string() } else { { let any = r.chance(1, 8); gen_arg_list(r, if any { SCRIPTLET_NAMES } else { &sn }) } };
         texts.push(text.clone());
-        let mut hosts = vec![(r.pick(HOSTS).to_string(), false)];
+        let mut hosts = vec![(r.pick(&["example.com", "example.com", "sub.example.com", "sub.example.com", "other.org"]).to_string(), false)];
         if r.chance(1, 4) {
             hosts.push((r.pick(HOSTS).to_string(), r.chance(1, 2)));
         }
@@ -651,7 +675,7 @@ fn gen_engine_case(r: &mut Rng) -> EngineCase {
         let text = if unhide && r.chance(1, 4) { String::new() } else if unhide && r.chance(1, 5) { format!("{} ", text) } else { text };
         rules.push(Rule { hosts, unhide, text, list: r.below(nl) });
     }
-    EngineCase { masks, rules, resources, host: r.pick(HOSTS).to_string() }
+    EngineCase { masks, rules, resources, host: r.pick(&["sub.example.com", "sub.example.com", "sub.example.com", "example.com", "other.org"]).to_string() }
 }
 
 fn coq_store(resources: &[Res]) -> String {
@@ -703,7 +727,9 @@ fn run_storage(c: &StorageCase) -> Result<String, String> {
 fn gen_storage_case(r: &mut Rng) -> StorageCase {
     let resources = gen_resources(r);
     let n = r.range(1, 4);
-    let injs = (0..n).map(|_| Req { text: gen_arg_list(r, SCRIPTLET_NAMES), mask: r.pick(&[0u8, 1, 2, 3, 0xff, 0, 4, 0x80]) }).collect();
+    let sn = store_names(&resources);
+    let sn: Vec<&str> = sn.iter().map(|s| s.as_str()).collect();
+    let injs = (0..n).map(|_| Req { text: { let any = r.chance(1, 8); gen_arg_list(r, if any { SCRIPTLET_NAMES } else { &sn }) }, mask: r.pick(&[0u8, 1, 2, 3, 0xff, 0, 3, 0x83, 0xff]) }).collect();
     StorageCase { resources, injs }
 }
 /// The F17 shape (dependency cycle through an alias) and friends: must terminate.
